@@ -237,8 +237,10 @@ def run_property(pid, spec: PropertySpec, tier, seed, t0):
         "assumptions": ASSUMPTIONS_COMMON + spec.assumptions + sorted(assumed) + [f"known finding excluded from the claim: {kk['id']}: {kk['what']}" for kk, _ in kf_emitted],
         "wall_s": round(wall, 2), "violations": len(violations),
     }
-    (ROOT / "evidence").mkdir(exist_ok=True)
-    (ROOT / "evidence" / f"{pid}.json").write_text(json.dumps(ev, indent=1, default=str))
+    # ASPIRE_VERIF_EVIDENCE_DIR: development only (runs against deliberately broken scratch trees must not overwrite the committed records)
+    evdir = pathlib.Path(os.environ["ASPIRE_VERIF_EVIDENCE_DIR"]) if os.environ.get("ASPIRE_VERIF_EVIDENCE_DIR") else ROOT / "evidence"
+    evdir.mkdir(exist_ok=True, parents=True)
+    (evdir / f"{pid}.json").write_text(json.dumps(ev, indent=1, default=str))
     try:
         import jsonschema
         schema = json.loads(pathlib.Path("/root/.vp/EVIDENCE.schema.json").read_text())
